@@ -315,7 +315,7 @@ func (x *Exec) jump(st *State, fr *Frame, to *ssa.BasicBlock) bool {
 	{
 		d := st.clone()
 		d.mute = true
-		d.disc = &discoverCtx{depth: len(d.stack), header: to.Index, blocks: li.blocks, writes: map[string]bool{}}
+		d.disc = &discoverCtx{depth: len(d.stack), header: to.Index, blocks: li.blocks, writes: map[string]bool{}, freshBase: *d.nfresh}
 		dfr := d.top()
 		d.havocAll()
 		d.disc.all = false
